@@ -19,6 +19,7 @@ type VariantCase struct {
 	Coff     bool                `json:"coff,omitempty"`
 	Names    [][]string          `json:"names,omitempty"` // C15 COFF: expected symbol names per variant (base first)
 	Maps     []map[string]string `json:"maps,omitempty"`  // C15 COFF: the renaming of each variant; the external symbols must read back as the renamed base symbols, in the same order
+	Twin     string              `json:"twin,omitempty"` // C12 string twins: the variants differ from the base only inside string literals, where the base has the letter 'q' and the variant one of these characters; the outputs may differ in exactly that way
 	Cell_    string              `json:"cell"`
 }
 
@@ -80,6 +81,21 @@ func (c *VariantCase) Judge(rs []Res, env *Env) Outcome {
 				got := coffExternalNames(r.Out)
 				if fmt.Sprint(got) != fmt.Sprint(c.Names[i+1]) {
 					return fail("coff-names", fmt.Sprintf("symbol names %v, expected %v", got, c.Names[i+1]))
+				}
+			}
+			continue
+		}
+		if c.Twin != "" {
+			if len(base) != len(r.Out) {
+				return fail("string-twin-length", fmt.Sprintf("the variant differs from the base only in characters inside string literals, yet the outputs have %d and %d bytes", len(base), len(r.Out)))
+			}
+			nd := 0
+			for k := range base {
+				if base[k] != r.Out[k] {
+					nd++
+					if base[k] != 'q' || !strings.ContainsRune(c.Twin, rune(r.Out[k])) {
+						return fail("string-twin-differs", fmt.Sprintf("offset %d: base %02x, variant %02x - not a string character standing for its placeholder", k, base[k], r.Out[k]))
+					}
 				}
 			}
 			continue
